@@ -90,7 +90,21 @@ func testSim(t *testing.T) {
 func RunOne(t *testing.T, cfg RunCfg, out string) {
 	zc := zap.NewProductionConfig()
 	zc.Level = zap.NewAtomicLevelAt(zapcore.FatalLevel)
-	log.InitializeLogger(zap.New(zapcore.NewNopCore()), &zc)
+	if os.Getenv("VERIF_CORELOG") != "" {
+		// debugging aid for replays: the core's own log at debug level (logging does not touch the schedule)
+		dc := zap.NewDevelopmentConfig()
+		dc.Level = zap.NewAtomicLevelAt(zapcore.DebugLevel)
+		dc.EncoderConfig.TimeKey = ""
+		dc.DisableStacktrace = true
+		lg, err := dc.Build()
+		if err != nil {
+			fatal2("core log: " + err.Error())
+		}
+		log.InitializeLogger(lg, &dc)
+		log.UpdateLoggingConfig(map[string]string{"log.level": "DEBUG"})
+	} else {
+		log.InitializeLogger(zap.New(zapcore.NewNopCore()), &zc)
+	}
 	debug.SetGCPercent(400)
 	wallStart := time.Now()
 	res := &Result{Cfg: cfg}
